@@ -55,6 +55,7 @@ type c08Case struct {
 	ProtoB   string `json:"proto"`
 	Persist  string `json:"persist"`
 	FailAt   int    `json:"fail_at,omitempty"`
+	Ctx      string `json:"context,omitempty"` // request context done when the handler starts (world.CtxShapes)
 	Login    string `json:"login_url,omitempty"` // the integrator's login UI URL form (ssoP.LoginURL)
 	Size     string `json:"size,omitempty"` // "" | relay-N | id-N: RelayState / request ID of N characters (replies that echo them get large)
 }
@@ -66,7 +67,7 @@ func (c c08Case) params() ssoP {
 			v.Set(&p)
 		}
 	}
-	p.ACS, p.ProtoB, p.LoginURL = c.ACS, c.ProtoB, c.Login
+	p.ACS, p.ProtoB, p.LoginURL, p.Ctx = c.ACS, c.ProtoB, c.Login, c.Ctx
 	if strings.HasPrefix(c.Size, "relay-") {
 		p.Relay = "long-" + strings.TrimPrefix(c.Size, "relay-")
 	}
@@ -100,6 +101,9 @@ func (c c08Case) labels() []string {
 	}
 	if c.Login != "" {
 		l = append(l, "login-url="+c.Login)
+	}
+	if c.Ctx != "" {
+		l = append(l, "request-"+c.Ctx)
 	}
 	if c.FailAt > 0 {
 		l = append(l, fmt.Sprintf("writer-fails-at=%d", c.FailAt))
@@ -262,6 +266,16 @@ func runC08(ctx Ctx) int {
 			for _, ps := range []string{"", "error"} {
 				for _, sz := range []string{"relay-1000", "relay-7000", "relay-8192", "relay-65536", "id-12000", "id-70000"} {
 					cases = append(cases, c08Case{Validity: v.Name, ACS: a, Persist: ps, Size: sz})
+				}
+			}
+		}
+	}
+	// the request's context is already cancelled / past its deadline when the handler starts (storage does not look at it): still one outcome
+	for _, v := range c08Validities {
+		for _, a := range []string{"", "redirect-only", "post-only", "redirect-default+post", "none"} {
+			for _, ps := range []string{"", "error", "error-ctx-canceled"} {
+				for _, cx := range []string{"context-cancelled", "context-deadline-exceeded"} {
+					cases = append(cases, c08Case{Validity: v.Name, ACS: a, Persist: ps, Ctx: cx})
 				}
 			}
 		}
